@@ -60,6 +60,39 @@ def gen(seed):
                                                   {'a': 'replace_stdout',
                                                    'which': rng.choice(['stdout', 'stderr'])}))
             spec['plan'] = _ws.order_plan(spec['plan'])
+    if spec['opt'].get('buffer') and not spec['opt'].get('j') and seed % 9 in (2, 6) and \
+            not any(e['a'] in ('close_stdout', 'replace_stdout', 'swap_stdout', 'wrap_stdout')
+                    for e in spec['plan']):
+        # a stream object remembered during one test is put back later - while another test
+        # runs (seed % 9 == 2) or by a layer's per-test hook between two tests (== 6)
+        from .. import common as C
+        srng = random.Random(seed ^ 0x57a5)
+        m_ = W.Model(spec['world'])
+        disc = [d for d in m_.discover() if C.test_phases(d) and not d['t'].get('doctest')]
+        # (both in one layer where possible: the capture streams belong to a layer's result)
+        by_layer = {}
+        for d in disc:
+            by_layer.setdefault(d['layer'], []).append(d)
+        same = [v for v in by_layer.values() if len(v) >= 2]
+        if same and srng.random() < 0.8:
+            disc = srng.choice(sorted(same, key=lambda v: v[0]['tid']))
+        if len(disc) >= 2:
+            a_, b_ = sorted(srng.sample(range(len(disc)), 2))
+            stash = C.fault_entry(disc[a_], srng.choice(C.test_phases(disc[a_])),
+                                  {'a': 'stash_stdout'})
+            if seed % 9 == 2:
+                back = C.fault_entry(disc[b_], srng.choice(C.test_phases(disc[b_])),
+                                     {'a': 'reinstall_stdout'})
+            else:
+                hooks = [(L['name'], h) for L in spec['world']['layers']
+                         for h in ('testTearDown', 'testSetUp') if m_.has_hook(L['name'], h)]
+                back = None
+                if hooks:
+                    L_, h_ = srng.choice(hooks)
+                    back = {'site': 'layer.' + h_, 'ident': L_, 'a': 'reinstall_stdout'}
+            if back is not None:
+                spec['plan'] = [e for e in spec['plan'] if e['a'] == 'write'] + [stash, back] + \
+                    [e for e in spec['plan'] if e['a'] != 'write']
     if not spec['opt'].get('j') and not spec['opt'].get('xml') and rng.random() < 0.05:
         # a test that drives a nested in-process run of the runner (tests of test infrastructure)
         from .. import common as C
